@@ -181,6 +181,15 @@ func TestZZVerifC05(t *testing.T) {
 			for i := 0; i < n; i++ {
 				ops = append(ops, g.TxnOp(scratch.r.State(), idx+1))
 			}
+			// "operations see the effects of earlier operations in the same transaction": read back what
+			// the list itself wrote (point reads and a listing of the enclosing prefix)
+			nrb := 0
+			if wr.Chance(60) {
+				rb := readBacks(ops)
+				nrb = len(rb)
+				ops = append(ops, rb...)
+				n = len(ops)
+			}
 			variants := []structs.TxnOps{ops}
 			// try the list first to know whether it commits; then enumerate failing positions
 			probe := newWorld()
@@ -268,6 +277,9 @@ func TestZZVerifC05(t *testing.T) {
 					}
 				} else {
 					run.Count("txn_committed")
+					if vi == 0 && nrb > 0 {
+						run.Count("txn_committed_with_read_back_of_own_writes")
+					}
 					// twin: same ops one at a time at the same index
 					b := newWorld()
 					b.apply(cmds, idxs)
@@ -325,9 +337,53 @@ func TestZZVerifC05(t *testing.T) {
 	run.Floor("aborted_after_>=2_mutations", 50)
 	run.Floor("read_only_txn", 10)
 	run.Floor("guards_that_must_fail_checked", 50)
+	run.Floor("txn_committed_with_read_back_of_own_writes", 20)
 	if run.Finish() == 1 {
 		t.Fail()
 	}
+}
+
+// readBacks returns read operations for everything the list writes: the twin (which commits every
+// operation before the next one runs) and the transaction must return the same for them.
+func readBacks(ops structs.TxnOps) structs.TxnOps {
+	var out structs.TxnOps
+	seen := map[string]bool{}
+	for _, op := range ops {
+		switch {
+		case op.KV != nil && isMutating(op):
+			k := op.KV.DirEnt.Key
+			if k == "" || seen["kv:"+k] {
+				continue
+			}
+			seen["kv:"+k] = true
+			if op.KV.Verb != api.KVDeleteTree {
+				out = append(out, &structs.TxnOp{KV: &structs.TxnKVOp{Verb: api.KVGet, DirEnt: structs.DirEntry{Key: k}}})
+			}
+			pfx := k
+			if i := strings.LastIndex(strings.TrimSuffix(k, "/"), "/"); i >= 0 {
+				pfx = k[:i+1]
+			}
+			out = append(out, &structs.TxnOp{KV: &structs.TxnKVOp{Verb: api.KVGetTree, DirEnt: structs.DirEntry{Key: pfx}}})
+		case op.Node != nil && op.Node.Verb != api.NodeGet && op.Node.Verb != api.NodeDelete && op.Node.Verb != api.NodeDeleteCAS:
+			if !seen["node:"+op.Node.Node.Node] {
+				seen["node:"+op.Node.Node.Node] = true
+				out = append(out, &structs.TxnOp{Node: &structs.TxnNodeOp{Verb: api.NodeGet, Node: structs.Node{Node: op.Node.Node.Node}}})
+			}
+		case op.Service != nil && (op.Service.Verb == api.ServiceSet || op.Service.Verb == api.ServiceCAS):
+			k := op.Service.Node + "/" + op.Service.Service.ID
+			if !seen["svc:"+k] {
+				seen["svc:"+k] = true
+				out = append(out, &structs.TxnOp{Service: &structs.TxnServiceOp{Verb: api.ServiceGet, Node: op.Service.Node, Service: structs.NodeService{ID: op.Service.Service.ID}}})
+			}
+		case op.Check != nil && (op.Check.Verb == api.CheckSet || op.Check.Verb == api.CheckCAS):
+			k := op.Check.Check.Node + "/" + string(op.Check.Check.CheckID)
+			if !seen["chk:"+k] {
+				seen["chk:"+k] = true
+				out = append(out, &structs.TxnOp{Check: &structs.TxnCheckOp{Verb: api.CheckGet, Check: structs.HealthCheck{Node: op.Check.Check.Node, CheckID: op.Check.Check.CheckID}}})
+			}
+		}
+	}
+	return out
 }
 
 // guardMustFail is an independent statement of when a KV guard has to fail, evaluated on the state the
